@@ -1,9 +1,9 @@
 package props
 
 import (
-	"io"
 	"bytes"
 	"fmt"
+	"io"
 	"strings"
 
 	"github.com/ulikunitz/xz/lzma"
